@@ -19,11 +19,11 @@ CLAIMED = {
          "Trusts the definitions in harness/src/model.rs; queries documented to panic outside V are only called inside V.",
          "DESIGN.md section 4, C02"),
  "C03": (PBT + " + " + ENUM + "; oracle: dynamic-programming shortest-walk reference",
-         L("DijkstraDist::distances() and the Dijkstra / DijkstraDist item sequences are compared with an independent walk-length dynamic programme (exact distances, usize::MAX exactly at unreachable vertices, each reachable vertex once, none unreachable, non-decreasing distance).", "order <= 12/40 (1 in 60 at 17..140), weights up to 2^40; every digraph of order <= 3 (quick) / <= 4 (thorough) with weights 0,1,2 exhaustively."),
+         L("DijkstraDist::distances() and the Dijkstra / DijkstraDist item sequences are compared with an independent walk-length dynamic programme (exact distances, usize::MAX exactly at unreachable vertices, each reachable vertex once, none unreachable, non-decreasing distance); the iterators are also consumed through count / last / fold / nth after k steps and through mid-iteration clones; weights include a big-M class (one arc about usize::MAX/2).", "order <= 12/40 (1 in 60 at 17..140), weights up to 2^40; every digraph of order <= 3 (quick) / <= 4 (thorough) with weights 0,1,2 exhaustively."),
          "Trusts the reference dynamic programme (cross-checked against simple-path enumeration) and that walk sums stay below usize::MAX as the property requires.",
          "DESIGN.md section 4, C03"),
  "C04": (PBT + " + " + ENUM + "; oracle: level-set hop distances",
-         L("Bfs / BfsDist sequences and BfsDist::distances() on five representations are compared with level sets computed from the definition.", "order <= 16/60 (1 in 25 at 17..140, so that bit-matrix rows span two and three words); all digraphs of order <= 3/4 x 13 source lists exhaustively."),
+         L("Bfs / BfsDist sequences and BfsDist::distances() on five representations are compared with level sets computed from the definition; the iterators are also consumed through count / last / fold / nth after k steps and through mid-iteration clones.", "order <= 16/60 (1 in 25 at 17..140, so that bit-matrix rows span two and three words); all digraphs of order <= 3/4 x 13 source lists exhaustively."),
          "Order within a level is free; sources are distinct and in range.",
          "DESIGN.md section 4, C04"),
  "C05": (PBT + " + " + ENUM + "; oracle: validity predicates over trees and paths with reference distances",
@@ -31,7 +31,7 @@ CLAIMED = {
          "Which of several optimal answers is returned is free; cycles() completeness is not claimed (disclaimed by the docs).",
          "DESIGN.md section 4, C05"),
  "C06": (PBT + " + " + ENUM + "; oracle: depth-first-preorder validity predicate; known finding attributed by simulation and searched behind",
-         L("every item yielded by Dfs, DfsDist, DfsPred and the forest of predecessors() on five representations must be a legal next step of a depth-first preorder with the right predecessor / depth, and the yielded set must be the reachable set. The recorded defect KF-C06-1 (early None) is attributed by exact comparison with a simulation of the defect; the search continues behind it by resuming the iterator.", "order <= 16/60; all digraphs of order <= 3/4 x 13 source lists exhaustively."),
+         L("every item yielded by Dfs, DfsDist, DfsPred and the forest of predecessors() on five representations must be a legal next step of a depth-first preorder with the right predecessor / depth, and the yielded set must be the reachable set. The recorded defect KF-C06-1 (early None) is attributed by exact comparison with a simulation of the defect; the search continues behind it by resuming the iterator; clones, clone_from and (for complete traversals) count / last / fold / nth must agree with next().", "order <= 16/60; all digraphs of order <= 3/4 x 13 source lists exhaustively."),
          "Trusts the validity predicate (accepts every depth-first preorder) and known_findings.json.",
          "DESIGN.md section 4, C06"),
  "C07": (PBT + " + " + ENUM + "; oracle: dynamic-programming shortest-walk reference incl. negative-circuit detection; differential vs Dijkstra",
@@ -43,11 +43,11 @@ CLAIMED = {
          "Digraphs with a negative circuit are outside the property and never generated.",
          "DESIGN.md section 4, C08"),
  "C09": (PBT + " + " + ENUM + "; oracle: transitive-closure SCCs",
-         L("Tarjan::components() on five representations and on non-contiguous AdjacencyMap digraphs must be pairwise disjoint, cover V and equal the mutual-reachability classes.", "order <= 14/60; all digraphs of order <= 4 (quick) / <= 5 (thorough) exhaustively."),
+         L("Tarjan::components() on five representations and on non-contiguous AdjacencyMap digraphs must be pairwise disjoint, cover V and equal the mutual-reachability classes — also on a user-defined representation that enumerates vertices and out-neighbours in scrambled order, and on a second call to the same instance.", "order <= 14/60; all digraphs of order <= 4 (quick) / <= 5 (thorough) exhaustively."),
          "Order of components is free.",
          "DESIGN.md section 4, C09"),
  "C10": (ENUM + " + " + PBT + "; oracle: brute-force enumeration of simple closed paths",
-         L("Johnson75::circuits() must contain no duplicate, only elementary circuits written from their smallest vertex, and equal the brute-force set.", "every digraph of order <= 4 (quick) / <= 5 (thorough, 2^20) exhaustively; random order <= 7."),
+         L("Johnson75::circuits() must contain no duplicate, only elementary circuits written from their smallest vertex, and equal the brute-force set (also on a second call to the same instance); random cases include subdivisions of small dense cores under random relabelling.", "every digraph of order <= 4 (quick) / <= 5 (thorough, 2^20) exhaustively; random order <= 7."),
          "Order is capped at 7 because the reference is exponential; list order is free.",
          "DESIGN.md section 4, C10"),
  "C11": (PBT + " + " + ENUM + "; oracle: set definitions + metamorphic relations (involution, commutativity, associativity, idempotence); CPU count set per case",
